@@ -32,6 +32,14 @@ type pass struct {
 	Race   bool
 	Shards int
 	Env    []string
+	Tier   string // when set, the tier this pass runs at whatever the check's tier is
+}
+
+func (p pass) tierFor(tier string) string {
+	if p.Tier != "" {
+		return p.Tier
+	}
+	return tier
 }
 
 type propCfg struct {
@@ -257,7 +265,14 @@ func run(prop string, cfg propCfg, tier string, seed uint64) int {
 	if tier == "quick" && cfg.QuickShards > 0 && cfg.QuickShards < mainShards {
 		mainShards = cfg.QuickShards
 	}
-	passes := []pass{{Name: "main", Race: cfg.Race, Shards: mainShards, Cover: os.Getenv("VERIF_NOCOVER") == ""}}
+	// The deciding pass is built WITHOUT coverage instrumentation: `go build -cover` compiles the instrumented copy of a
+	// `go 1.18` module with per-iteration loop variables, i.e. with other semantics than a user of the library gets (a
+	// goroutine closure capturing a range variable behaves correctly in the instrumented build only). Coverage is taken by
+	// a separate pass that repeats the quick-scale workload; its verdicts count as well.
+	passes := []pass{{Name: "main", Race: cfg.Race, Shards: mainShards}}
+	if os.Getenv("VERIF_NOCOVER") == "" {
+		passes = append(passes, pass{Name: "cov", Cover: true, Shards: mainShards, Tier: "quick"})
+	}
 	if cfg.Arch386 {
 		n := 2
 		if tier == "thorough" {
@@ -318,7 +333,7 @@ func run(prop string, cfg propCfg, tier string, seed uint64) int {
 				tag := fmt.Sprintf("%s.%d", p.Name, s)
 				sr := &shardRun{Pass: p, Shard: s, Log: filepath.Join(workDir, "log."+tag), Marker: filepath.Join(workDir, "marker."+tag)}
 				resPath := filepath.Join(workDir, "res."+tag+".json")
-				args := []string{"-prop", prop, "-tier", tier, "-seed", strconv.FormatUint(seed, 10), "-shard", strconv.Itoa(s), "-nshards", strconv.Itoa(p.Shards),
+				args := []string{"-prop", prop, "-tier", p.tierFor(tier), "-seed", strconv.FormatUint(seed, 10), "-shard", strconv.Itoa(s), "-nshards", strconv.Itoa(p.Shards),
 					"-out", resPath, "-marker", sr.Marker, "-cpulimit", strconv.Itoa(cpuLimit), "-workdir", workDir}
 				env := append([]string{}, p.Env...)
 				if p.Race {
@@ -576,7 +591,7 @@ func triageCrash(prop, tier string, seed uint64, sr *shardRun, bin, workDir stri
 	tag := fmt.Sprintf("confirm.%s.%d", sr.Pass.Name, sr.Shard)
 	logp := filepath.Join(workDir, "log."+tag)
 	resp := filepath.Join(workDir, "res."+tag+".json")
-	args := []string{"-prop", prop, "-tier", tier, "-seed", strconv.FormatUint(seed, 10), "-only", sub + ":" + strconv.Itoa(idx), "-out", resp,
+	args := []string{"-prop", prop, "-tier", sr.Pass.tierFor(tier), "-seed", strconv.FormatUint(seed, 10), "-only", sub + ":" + strconv.Itoa(idx), "-out", resp,
 		"-marker", filepath.Join(workDir, "marker."+tag), "-cpulimit", "60", "-workdir", workDir}
 	env := append([]string{}, sr.Pass.Env...)
 	if sr.Pass.Race {
@@ -615,7 +630,7 @@ func triageCrash(prop, tier string, seed uint64, sr *shardRun, bin, workDir stri
 	if obs == "" {
 		obs = kind
 	}
-	return &fw.Violation{Property: prop, Sig: sigKey, Sub: subName, Case: idx, Seed: seed, Tier: tier,
+	return &fw.Violation{Property: prop, Sig: sigKey, Sub: subName, Case: idx, Seed: seed, Tier: sr.Pass.tierFor(tier),
 		Input: truncate(input, 20000), Expected: "the call returns (no process-fatal error, terminates)",
 		Observed: fmt.Sprintf("%s (reproduced alone: %v %s)", obs, reproduced, kind2),
 		Extra:    truncate(stackExcerpt(log), 4000)}, ""
@@ -882,10 +897,13 @@ func doReplay(path string) int {
 	}
 	p := pass{Name: "main", Race: cfg.Race}
 	sub := rp.Workload
-	if i := strings.Index(sub, ":"); i > 0 && (sub[:i] == "386" || sub[:i] == "race") {
-		if sub[:i] == "386" {
+	if i := strings.Index(sub, ":"); i > 0 && (sub[:i] == "386" || sub[:i] == "race" || sub[:i] == "cov") {
+		switch sub[:i] {
+		case "386":
 			p = pass{Name: "386", GOARCH: "386"}
-		} else {
+		case "cov":
+			p = pass{Name: "cov", Cover: true}
+		default:
 			p = pass{Name: "race", Race: true}
 		}
 		sub = sub[i+1:]
